@@ -41,6 +41,13 @@ combs = z3.Function('combs', ISeq, Int, CSeq)     # itertools.combinations(s,k) 
 sat = z3.Function('sat', Asg, CSeq, Bool)         # every clause true
 cmaxabs = z3.Function('cmaxabs', CSeq, Int)       # max |literal| over all clauses (0 if none)
 chaszero = z3.Function('chaszero', CSeq, Bool)    # some clause contains the literal 0
+rnbrs = z3.Function('rnbrs', Int, Int, ISeq)       # right neighbours of left vertex u in the (abstract) bipartite graph g
+apseq = z3.Function('apseq', Int, Int, ISeq)       # [start, start+1, ..., start+n-1]
+negunits = z3.Function('negunits', ISeq, CSeq)     # [[-l] for l in s]
+signvecs = z3.Function('signvecs', Int, CSeq)     # itertools.product([1,-1], repeat=n), in order
+sprod = z3.Function('sprod', ISeq, Int)           # product of the entries
+smul = z3.Function('smul', ISeq, ISeq, ISeq)      # [l*s for l,s in zip(lits, signs)]
+pfilter = z3.Function('pfilter', ISeq, Int, Int, CSeq)  # [smul(l,s) for s in signvecs(len l)[:t] if sprod(s)==d]
 IArr = z3.ArraySort(Int, Int)
 psum = z3.Function('psum', IArr, IArr, Int, Int)   # psum(I,W,t) = sum_{s<t} (I[s]-1)*W[s]   (mixed-radix value)
 pow2 = z3.Function('pow2', Int, Int)              # 2**x for x >= 0
@@ -85,7 +92,7 @@ FUNCS = dict(tlen=tlen, tcoef=tcoef, tlit=tlit, tunit=tunit, tnegc=tnegc, tset=t
              ilen=ilen, iget=iget, inil=inil, isnoc=isnoc, iapp=iapp, ineg=ineg, haszero=haszero,
              maxof=maxof, minof=minof, maxabs=maxabs, lit_true=lit_true, count=count, ctrue=ctrue,
              clen=clen, cget=cget, cnil=cnil, csnoc=csnoc, capp=capp, ctake=ctake, combs=combs, sat=sat,
-             cmaxabs=cmaxabs, pow2=pow2, chaszero=chaszero, psum=psum)
+             cmaxabs=cmaxabs, pow2=pow2, chaszero=chaszero, psum=psum, rnbrs=rnbrs, apseq=apseq, negunits=negunits, signvecs=signvecs, sprod=sprod, smul=smul, pfilter=pfilter)
 
 
 def zmax(a, b):
@@ -218,6 +225,37 @@ def _on_terms(terms_by_decl):
         out.append(z3.Implies(x >= 1, pow2(x) == 2 * pow2(x - 1)))
         out.append(z3.Implies(x >= 0, pow2(x + 1) == 2 * pow2(x)))
     out += _opb_on_terms(terms_by_decl)
+    for (st, n) in terms_by_decl.get('apseq', []):
+        # Seq.lean apseq_*: length, bounds, zero membership
+        sq = apseq(st, n)
+        out += [z3.Implies(n >= 0, ilen(sq) == n),
+                z3.Implies(n >= 0, haszero(sq) == z3.And(st <= 0, 0 < st + n)),
+                z3.Implies(z3.And(n >= 1, st >= 1), maxabs(sq) == st + n - 1),
+                z3.Implies(n <= 0, sq == inil)]
+    for (sq, i) in terms_by_decl.get('iget', []):
+        if z3.is_app(sq) and sq.decl().name() == 'apseq':
+            st, n = sq.children()
+            out.append(z3.Implies(z3.And(0 <= i, i < n), iget(sq, i) == st + i))
+    for (s_,) in terms_by_decl.get('negunits', []):
+        nu = negunits(s_)
+        out += [clen(nu) == ilen(s_), cmaxabs(nu) == maxabs(s_), chaszero(nu) == haszero(s_)]
+    for (n,) in terms_by_decl.get('signvecs', []):
+        out.append(z3.Implies(n >= 0, clen(signvecs(n)) == pow2(n)))           # Bits.lean length_signs
+    for (l, d, t) in terms_by_decl.get('pfilter', []):
+        n = ilen(l)
+        sv = cget(signvecs(n), t)
+        out.append(z3.Implies(z3.And(0 <= t, t <= pow2(n)), cmaxabs(pfilter(l, d, t)) <= maxabs(l)))      # Parity.lean pfilter_maxabs
+        out.append(z3.Implies(z3.And(0 <= t, t <= pow2(n), z3.Not(haszero(l))), z3.Not(chaszero(pfilter(l, d, t)))))
+        out.append(z3.Implies(t == 0, pfilter(l, d, t) == cnil))                  # Parity.lean pfilter_zero / pfilter_succ
+        out.append(z3.Implies(z3.And(0 <= t, t < pow2(n)),
+                              pfilter(l, d, t + 1) == z3.If(sprod(sv) == d, csnoc(pfilter(l, d, t), smul(l, sv)), pfilter(l, d, t))))
+    for (l, sgn) in terms_by_decl.get('smul', []):
+        # Parity.lean smul_signs_*: multiplying by a sign vector keeps |.| and non-zeroness
+        if z3.is_app(sgn) and sgn.decl().name() == 'cget' and z3.is_app(sgn.arg(0)) and sgn.arg(0).decl().name() == 'signvecs':
+            n, t = sgn.arg(0).arg(0), sgn.arg(1)
+            ok = z3.And(n == ilen(l), 0 <= t, t < pow2(n))
+            out.append(z3.Implies(ok, z3.And(maxabs(smul(l, sgn)) == maxabs(l), haszero(smul(l, sgn)) == haszero(l),
+                                             ilen(smul(l, sgn)) == ilen(l))))
     ps = terms_by_decl.get('psum', [])
     for (I, W, t) in ps:
         # Block.lean psum_zero / psum_succ / psum_store_ge
@@ -341,6 +379,13 @@ def _sem_on_terms(asgs, terms_by_decl):
             out.append(sat(a, csnoc(c, s)) == z3.And(sat(a, c), ctrue(a, s)))     # L1 instance
         for (c, d) in terms_by_decl.get('capp', []):
             out.append(sat(a, capp(c, d)) == z3.And(sat(a, c), sat(a, d)))        # L1 (Parity.lean sat_append)
+        for (s_,) in terms_by_decl.get('negunits', []):
+            # every literal false  (Count.lean sat_negunits): needs non-zero literals
+            out.append(z3.Implies(z3.Not(haszero(s_)), sat(a, negunits(s_)) == (count(a, s_) == 0)))
+        for (l, d, t) in terms_by_decl.get('pfilter', []):
+            # L6 PARITY (Parity.lean parity_main): the sign patterns of product d over non-zero literals
+            out.append(z3.Implies(z3.And(z3.Or(d == 1, d == -1), z3.Not(haszero(l)), t == pow2(ilen(l))),
+                                  sat(a, pfilter(l, d, t)) == ((count(a, l) % 2 == 1) == (d == 1))))
         for (s, k) in terms_by_decl.get('combs', []):
             # L4 BLAST (Blast.lean): 1<=k<=len s  ->  all k-subsets hit  <->  count >= len-k+1
             out.append(z3.Implies(z3.And(1 <= k, k <= ilen(s)),
